@@ -503,6 +503,9 @@ let () =
              | "ENC" -> do_enc rest
              | "DEC" -> do_dec rest
              | "TRACE" -> do_trace rest
+             | "NAME" -> hex_of_bytes (chunk_file_name (n_of_string (String.trim rest)))
+             | "PARSE" -> (match parse_chunk_file_name (bytes_of_hex (String.trim rest)) with
+                           | Some n -> "some " ^ string_of_n n | None -> "none")
              | _ -> "badcase")
           with Failure m -> "driver-error " ^ m
              | Stack_overflow -> "driver-error stack-overflow"
